@@ -132,6 +132,7 @@ Definition old_after_failure := after_failure_with old_classify.
 Definition FNil : N := 0.        (* Execute returned nil *)
 Definition FOriginal : N := 1.   (* Execute returned an error that contains the failure of the first attempt *)
 Definition FOther : N := 2.      (* Execute returned some other error *)
+Definition FPanic : N := 3.      (* Execute panicked *)
 
 Record obs := mkObs {
   o_runs : list (bool * list peer);          (* every TssProcess.Run call: coordinator flag, params *)
@@ -150,11 +151,59 @@ Definition all_peers (m : nat) : list peer := map N.of_nat (seq 0 m).
 Definition starts_of (m : nat) (runs : list (bool * list peer)) : list (list peer * list peer) :=
   flat_map (fun r : bool * list peer => if fst r then [(snd r, all_peers m)] else []) runs.
 
+(* ---------------------------------------------------------------------------------------------- *)
+(* The bully election of one relayer (comm/elector/bully.go) as far as its outcome goes.  The relayer
+   starts with itself as coordinator, announces itself after ElectionWaitTime and then processes, one at
+   a time, what arrives until BullyWaitTime is over ([bmsg]s in arrival order; each is from ANY peer - a
+   candidate, an excluded culprit that still runs its own election for the session, a peer that holds no
+   key):
+     BSelect p    setCoordinator(p): accepted iff isPeerIDHigher(p, current) || p == self
+     BElection p  !isPeerIDHigher(p, self): answered with Alive and a new elect(), after which the relayer
+                  has announced itself again (current = self); otherwise ignored
+     BAlive p     accepted only from peers that rank BELOW this relayer (isPeerIDHigher(self, p)); the
+                  scripted ones never do (non-candidates and earlier candidates): ignored
+   isPeerIDHigher(p, q) compares the positions in the sorted candidate list.
+     [rank_coded]   as coded: a peer that is NOT in the list keeps the initial index 0, i.e. it ranks
+                    level with the first candidate - its Select message is accepted by every relayer whose
+                    current coordinator is not the first candidate
+     [bully_strict] the repaired rule: messages of peers that are not candidates are dropped *)
+
+Inductive bmsg := BSelect (from : peer) | BElection (from : peer) | BAlive (from : peer).
+
+Definition bmsg_from (b : bmsg) : peer := match b with BSelect f | BElection f | BAlive f => f end.
+
 Fixpoint index_of (p : peer) (l : list peer) (i : nat) : option nat :=
   match l with
   | [] => None
   | x :: r => if N.eqb x p then Some i else index_of p r (S i)
   end.
+
+Definition rank_coded (s : list peer) (p : peer) : nat :=
+  match index_of p s 0 with Some i => i | None => 0%nat end.
+
+Definition higher_coded (s : list peer) (p q : peer) : bool := (rank_coded s p <? rank_coded s q)%nat.
+
+Definition bully_step (s : list peer) (self cur : peer) (b : bmsg) : peer :=
+  match b with
+  | BSelect p => if higher_coded s p cur || N.eqb p self then p else cur
+  | BElection p => if higher_coded s p self then cur else self
+  | BAlive _ => cur
+  end.
+
+Definition from_candidate (cands : list peer) (b : bmsg) : bool := memb (bmsg_from b) cands.
+
+Section Bully.
+  Variable key : peer -> N.
+
+  Definition bully_coded (self : peer) (bs : list bmsg) (cands : list peer) : peer :=
+    fold_left (bully_step (sort_peers key cands) self) bs self.
+
+  Definition bully_strict (self : peer) (bs : list bmsg) (cands : list peer) : peer :=
+    bully_coded self (filter (from_candidate cands) bs) cands.
+End Bully.
+
+(* the election ended with this relayer or with one of the candidates *)
+Definition bully_guarded (c2 self : peer) (cands : list peer) : bool := memb c2 (self :: cands).
 
 Definition opt_peer_eqb (a : option peer) (b : peer) : bool :=
   match a with Some x => N.eqb x b | None => false end.
@@ -234,24 +283,14 @@ Section Session.
   Variable tm : timing.
   Variable m : nat.                (* size of the peer table *)
 
-  (* the bully election as far as the runner scripts it: nobody answers (None) or one earlier
-     candidate announces itself after this relayer's own Select *)
-  Definition bully_result (self : peer) (winner : option peer) (cands : list peer) : peer :=
-    match winner with
-    | None => self
-    | Some w =>
-        let s := sort_peers key cands in
-        match index_of w s 0, index_of self s 0 with
-        | Some iw, Some iself => if (iw <? iself)%nat then w else self
-        | _, _ => self
-        end
-    end.
+  (* [br] = the election's outcome rule: bully_coded key / bully_strict key *)
+  Variable br : peer -> list bmsg -> list peer -> peer.
 
   (* what happens after the first attempt (whose Run calls were [runs1]) failed with [e].  Nothing here
      depends on which peers can be reached: the results of the coordinator's broadcasts are ignored. *)
   Definition continue (cl : err -> action) (holders : list peer) (t : Z) (self : peer) (retryable : bool)
              (runs1 : list (bool * list peer)) (e : err)
-             (winner : option peer) (ready2 : list peer) (msgs2 : list (N * wmsg)) : obs :=
+             (bs : list bmsg) (ready2 : list peer) (msgs2 : list (N * wmsg)) : obs :=
     let starts1 := starts_of m runs1 in
     match after_failure_with cl retryable holders e with
     | Returned => mkObs runs1 None [] [] FOriginal [] starts1
@@ -261,7 +300,7 @@ Section Session.
         mkObs (runs1 ++ runs_of (fst w)) None [] (readies_of (fst w)) (if has_bad (fst w) || snd w then FOther else FNil)
               [] starts1
     | Retried cands ex =>
-        let c2 := bully_result self winner cands in
+        let c2 := br self bs cands in
         if N.eqb c2 self then
           let (calls, ann) := initiate key holders t ex [self] ready2 in
           let runs2 := match ann with Some sub => [(true, sub)] | None => [] end in
@@ -279,7 +318,7 @@ Section Session.
   (* the first Run of the first attempt returns the error [e] (as seen by handleError) *)
   Definition session (cl : err -> action) (holders : list peer) (t : Z) (self : peer) (retryable : bool)
              (ready1 start1 : list peer) (e : err)
-             (winner : option peer) (ready2 : list peer) (msgs2 : list (N * wmsg)) : obs :=
+             (bs : list bmsg) (ready2 : list peer) (msgs2 : list (N * wmsg)) : obs :=
     let first :=
       if opt_peer_eqb (coordinator key holders) self then
         match snd (initiate key holders t [] [self] ready1) with
@@ -289,7 +328,7 @@ Section Session.
       else Some (false, start1) in
     match first with
     | None => empty_obs
-    | Some r1 => continue cl holders t self retryable [r1] e winner ready2 msgs2
+    | Some r1 => continue cl holders t self retryable [r1] e bs ready2 msgs2
     end.
 
   (* the coordinator of the first attempt sends no start message: waitForStart gives up with
@@ -300,15 +339,19 @@ Section Session.
     | None => None
     end.
 
-  Definition with_readies (rs : list peer) (o : obs) : obs :=
-    mkObs (o_runs o) (o_elected o) (o_calls2 o) (rs ++ o_ready2 o) (o_final o) (o_inits2 o) (o_starts o).
-
   (* [msgs1]: what arrives during the first attempt (forged traffic of other peers, initiate messages
      of the coordinator), with arrival times; afterwards the runner waits for whichever ticker fires.
-     [o_ready2] lists every ready message of the session here. *)
+     The ready messages of the first attempt (answers to the coordinator's own initiate messages) are
+     listed apart from those sent after the failure ([o_ready2]). *)
+  Definition silent_readies (holders : list peer) (msgs1 : list (N * wmsg)) : list peer :=
+    match coordinator key holders with
+    | Some c => readies_of (tr_outs (silent_wait tm c msgs1))
+    | None => []
+    end.
+
   Definition session_silent (cl : err -> action) (holders : list peer) (t : Z) (self : peer) (retryable : bool)
              (msgs1 : list (N * wmsg))
-             (winner : option peer) (ready2 : list peer) (msgs2 : list (N * wmsg)) : obs :=
+             (bs : list bmsg) (ready2 : list peer) (msgs2 : list (N * wmsg)) : obs :=
     match coordinator key holders with
     | Some c =>
         let w := silent_wait tm c msgs1 in
@@ -316,16 +359,14 @@ Section Session.
         | Waiting =>
             if (tr_deadline w <? watch_timeout tm)%N then
               (* waitForStart's ticker: CoordinatorError{c} *)
-              with_readies (readies_of (tr_outs w))
-                (continue cl holders t self retryable [] (pool_join [Node (KCoord c) []]) winner ready2 msgs2)
+              continue cl holders t self retryable [] (pool_join [Node (KCoord c) []]) bs ready2 msgs2
             else
               (* the watchdog's ticker comes first: "tss process timed out", an unrecognised failure *)
-              mkObs [] None [] (readies_of (tr_outs w)) FOther [] []
+              mkObs [] None [] [] FOther [] []
         | _ =>
             (* the coordinator was not silent: its start message was accepted (the process runs until the
                runner ends the session) or the session ended with a decoding error / its fail message *)
-            mkObs (runs_of (tr_outs w)) None [] (readies_of (tr_outs w))
-                  (if has_bad (tr_outs w) then FOther else FNil) [] []
+            mkObs (runs_of (tr_outs w)) None [] [] (if has_bad (tr_outs w) then FOther else FNil) [] []
         end
     | None => empty_obs
     end.
@@ -350,7 +391,7 @@ Section Session.
     match duo_subset holders t a ready1 with
     | Some sub =>
         if memb c sub then mkObs [(false, sub)] None [] [] FNil [] []
-        else continue cl holders t c true [(false, sub)] left_out_error None [] msgs2
+        else continue cl holders t c true [(false, sub)] left_out_error [] [] msgs2
     | None => empty_obs
     end.
 End Session.
@@ -404,6 +445,14 @@ Definition enough (holders : list peer) (t : Z) (ps unreach : list peer) (self :
   nodupb holders && (1 <=? t)%Z
   && (t <=? Z.of_nat (length (reachable_ready holders ps unreach self ready2)))%Z.
 
+(* a start message with these params was offered by one of [cands] *)
+Definition started_by (cands : list peer) (msgs : list (N * wmsg)) (l : list peer) : bool :=
+  existsb (fun x : N * wmsg =>
+             match snd x with
+             | MStart f (Some l') => memb f cands && list_peer_eqb l l'
+             | _ => false
+             end) msgs.
+
 (* what the judge knows about the relayer and its surroundings *)
 Record env := mkEnv {
   e_tm : timing;
@@ -421,10 +470,21 @@ Definition obs_allows (ev : env) (nfirst : nat) (o : obs) (a : action) : bool :=
   let second_runs := skipn nfirst (o_runs o) in
   match a with
   | RetryExcluding ps =>
+      if memb (e_self ev) ps then
+        (* the failure names this relayer itself: all that is demanded is that it is not turned into
+           success - a replacement attempt begins or the session ends with an error *)
+        match o_elected o with Some _ => true | None => negb (N.eqb (o_final o) FNil) end
+      else
       match o_elected o with
       | None => false
       | Some cs =>
           same_set cs (exclude holders ps)
+          (* whoever this relayer treats as the coordinator of the replacement attempt - it answers its
+             initiate messages, it runs the process on its start message - is an election candidate: a key
+             holder that is not a culprit, whoever else announced itself meanwhile *)
+          && forallb (fun p => memb p (exclude holders ps)) (o_ready2 o)
+          && forallb (fun r : bool * list peer =>
+                        if fst r then true else started_by (exclude holders ps) (e_msgs2 ev) (snd r)) second_runs
           && forallb (fun r : bool * list peer =>
                         if fst r then forallb (fun p => negb (memb p ps)) (snd r) else true) second_runs
           && forallb (fun c : list peer * list peer => same_set (snd c) ps) (o_calls2 o)
@@ -451,7 +511,8 @@ Definition obs_allows (ev : env) (nfirst : nat) (o : obs) (a : action) : bool :=
 
 (* [nfirst] = number of Run calls of the first attempt (1, or 0 when the coordinator was silent) *)
 Definition spec_ok (ev : env) (retryable : bool) (e : err) (nfirst : nat) (o : obs) : bool :=
-  told (e_holders ev) (e_self ev) [] (firstn nfirst (o_runs o)) (o_starts o)
+  negb (N.eqb (o_final o) FPanic)       (* whatever the failure value: the relayer does not crash *)
+  && told (e_holders ev) (e_self ev) [] (firstn nfirst (o_runs o)) (o_starts o)
   && (if negb retryable then obs_allows ev nfirst o GiveUp
       else match recognised_kinds e with
            | [] => obs_allows ev nfirst o GiveUp
